@@ -176,6 +176,8 @@ type vfWorld struct {
 	recLive       []vfRecModelEvent
 	recSaved      []vfRecModelEvent
 	recDirty      bool
+	recBlockOn    bool      // the recorder's disk refuses to create the temporary file of a save
+	recBlockFrom  time.Time
 	recSavedOnce  bool
 	recLastEvent  time.Time
 	expiredCookie string
